@@ -2,6 +2,7 @@ package props
 
 import (
 	"fmt"
+	"go/constant"
 	"go/token"
 	"go/types"
 	"strings"
@@ -346,6 +347,44 @@ func (x *Ctx) decimalPointAccounting(r *core.Result, g, h *core.RuleStat) {
 		for _, t := range x.trips(fn, loops[0], st) {
 			if t.bytes.Empty() || t.bytes.And(digits) != t.bytes {
 				continue // not a digit trip
+			}
+			// digits that are not stored: the truncation flag is raised exactly for the non-zero ones (a dropped zero
+			// changes nothing; a dropped non-zero digit must break ties upwards) — before and after the '.'
+			if !(t.bytes == lts.Of('0') && t.ints[fmt.Sprintf("field:%d==0", firstKey(X.field))]) {
+				stored, setsFlag := false, false
+				for _, b := range t.blocks[:len(t.blocks)-1] {
+					for _, ins := range b.Instrs {
+						sto, ok := ins.(*ssa.Store)
+						if !ok {
+							continue
+						}
+						fa, ok := sto.Addr.(*ssa.FieldAddr)
+						if !ok || unspill(fa.X) != ssa.Value(recv) {
+							continue
+						}
+						if X.field[fa.Field] {
+							stored = true
+						}
+						if c, ok := sto.Val.(*ssa.Const); ok && c.Value != nil && c.Value.Kind() == constant.Bool && constant.BoolVal(c.Value) {
+							// a boolean field of the receiver set to true — but not the loop's own "seen a digit" locals
+							setsFlag = true
+						}
+					}
+				}
+				if !stored {
+					hasZero, hasNonZero := t.bytes.Has('0'), !t.bytes.And(lts.Range('1', '9')).Empty()
+					switch {
+					case hasNonZero && !hasZero && !setsFlag:
+						r.Fail(g, "decimal.set:dropped-digit-not-flagged", w.Pos(fn.Pos()), fmt.Sprintf("a non-zero digit (byte in %s) that does not fit the buffer is dropped without raising the truncation flag: halfway cases beyond the buffer round the wrong way", t.bytes))
+						okG = false
+					case hasZero && !hasNonZero && setsFlag:
+						r.Fail(g, "decimal.set:dropped-zero-flagged", w.Pos(fn.Pos()), "a zero that does not fit the buffer raises the truncation flag: an exact halfway literal padded with zeros would be rounded up")
+						okG = false
+					case hasZero && hasNonZero:
+						r.Undecided(g, "decimal.set:dropped-digit", w.Pos(fn.Pos()), "a dropped digit is handled the same way whether it is zero or not")
+						okG = false
+					}
+				}
 			}
 			// after the '.': some boolean known true on the way whose meaning is "the point has been seen" — any boolean
 			// loop variable tested true exempts the trip only if it is the one set on the '.' trip; approximated by:
